@@ -60,7 +60,11 @@ impl Distribution for Gamma {
     fn sample(&self) -> f64 {
         let d = self.alpha - 1. / 3.;
         loop {
+            #[cfg(feature = "verif-hooks")]
+            crate::verif_hooks::tick(crate::verif_hooks::Site::GammaOuter);
             let (x, v) = loop {
+                #[cfg(feature = "verif-hooks")]
+                crate::verif_hooks::tick(crate::verif_hooks::Site::GammaInner);
                 let x = self.normal_gen.sample();
                 let v = (1. + x / (9. * d).sqrt()).powi(3);
                 if v > 0. {
@@ -69,9 +73,13 @@ impl Distribution for Gamma {
             };
             let u = self.uniform_gen.sample();
             if u < 1. - 0.0331 * x.powi(4) {
+                #[cfg(feature = "verif-hooks")]
+                crate::verif_hooks::tick(crate::verif_hooks::Site::GammaSqueeze);
                 return d * v / self.beta;
             }
             if u.ln() < 0.5 * x.powi(2) + d * (1. - v + v.ln()) {
+                #[cfg(feature = "verif-hooks")]
+                crate::verif_hooks::tick(crate::verif_hooks::Site::GammaLog);
                 return d * v / self.beta;
             }
         }
